@@ -342,13 +342,15 @@ def build_file(spec):
         elif nested["kind"] == "LIST":
             top_opt, el_opt = nested.get("top_optional", True), nested.get("elem_optional", True)
             schema.append({"name": cs["name"].encode("utf8"), "repetition_type": 1 if top_opt else 0, "num_children": 1, "converted_type": 3})
-            schema.append({"name": b"list", "repetition_type": 2, "num_children": 1})
-            se = {"name": b"element", "type": TYPES.index(cs["ptype"]), "repetition_type": 1 if el_opt else 0}
+            # (the group names are not fixed by the format: older writers call them bag / array_element, arrow calls the element item)
+            mid_, el_ = {"legacy": (b"bag", b"array_element"), "arrow": (b"list", b"item")}.get(nested.get("names"), (b"list", b"element"))
+            schema.append({"name": mid_, "repetition_type": 2, "num_children": 1})
+            se = {"name": el_, "type": TYPES.index(cs["ptype"]), "repetition_type": 1 if el_opt else 0}
             if cs.get("converted") is not None:
                 se["converted_type"] = cs["converted"]
             schema.append(se)
             leaf = dict(cs)
-            leaf["path"] = [cs["name"].encode("utf8"), b"list", b"element"]
+            leaf["path"] = [cs["name"].encode("utf8"), mid_, el_]
             leaf["max_def"] = (1 if top_opt else 0) + 1 + (1 if el_opt else 0)
             leaf["max_rep"] = 1
             leaf["slots_of"] = (lambda rows, a=top_opt, b=el_opt: [s for row in rows for s in shred_list(row, a, b)])
@@ -356,7 +358,8 @@ def build_file(spec):
         elif nested["kind"] == "MAP":
             top_opt, val_opt = nested.get("top_optional", True), nested.get("value_optional", True)
             schema.append({"name": cs["name"].encode("utf8"), "repetition_type": 1 if top_opt else 0, "num_children": 1, "converted_type": 1})
-            schema.append({"name": b"key_value", "repetition_type": 2, "num_children": 2, "converted_type": 2})
+            mid_ = b"map" if nested.get("names") == "legacy" else b"key_value"        # (older writers: group "map", annotated MAP_KEY_VALUE)
+            schema.append({"name": mid_, "repetition_type": 2, "num_children": 2, "converted_type": 2})
             kse = {"name": b"key", "type": TYPES.index(nested["key_ptype"]), "repetition_type": 0}
             if nested.get("key_converted") is not None:
                 kse["converted_type"] = nested["key_converted"]
@@ -365,11 +368,11 @@ def build_file(spec):
                 vse["converted_type"] = cs["converted"]
             schema += [kse, vse]
             kl = dict(cs)
-            kl.update({"ptype": nested["key_ptype"], "converted": nested.get("key_converted"), "path": [cs["name"].encode("utf8"), b"key_value", b"key"],
+            kl.update({"ptype": nested["key_ptype"], "converted": nested.get("key_converted"), "path": [cs["name"].encode("utf8"), mid_, b"key"],
                        "max_def": (1 if top_opt else 0) + 1, "max_rep": 1})
             kl["slots_of"] = (lambda rows, a=top_opt: [s for row in rows for s in shred_list(None if row is None else [k for k, v in row], a, False)])
             vl = dict(cs)
-            vl.update({"path": [cs["name"].encode("utf8"), b"key_value", b"value"], "max_def": (1 if top_opt else 0) + 1 + (1 if val_opt else 0), "max_rep": 1})
+            vl.update({"path": [cs["name"].encode("utf8"), mid_, b"value"], "max_def": (1 if top_opt else 0) + 1 + (1 if val_opt else 0), "max_rep": 1})
             vl["slots_of"] = (lambda rows, a=top_opt, b=val_opt: [s for row in rows for s in shred_list(None if row is None else [v for k, v in row], a, b)])
             if val_opt is False:
                 pass
@@ -389,7 +392,9 @@ def build_file(spec):
         rgs.append(rg)
         row0 += nrows
     fmd = {"version": 1, "schema": schema, "num_rows": sum(spec["row_groups"]), "row_groups": rgs,
-           "created_by": spec.get("created_by", "refpq spec-level writer 1.0").encode("utf8")}
+           "created_by": (spec.get("created_by", "refpq spec-level writer 1.0") or "").encode("utf8")}
+    if "created_by" in spec and spec["created_by"] is None:
+        del fmd["created_by"]          # the field is optional
     if spec.get("column_orders"):
         fmd["column_orders"] = [{"TYPE_ORDER": {}} for _ in leaves]
     if spec.get("kv"):
